@@ -27,6 +27,8 @@ def activate():
     for name in list(sys.modules):
         if name == "batchie" or name.startswith("batchie."):
             del sys.modules[name]
+    if os.environ.get("VERIF_WEAK_HASH") == "1":
+        _install_weak_hashes()
     try:
         import batchie  # noqa
     except Exception as e:  # pragma: no cover
@@ -48,6 +50,69 @@ def activate():
 
     warnings.filterwarnings("ignore")
     return batchie
+
+
+_weak = [False]
+
+
+def _install_weak_hashes():
+    """(process-configuration sweep) collision injection: while code of the tree under test is the caller, the non-cryptographic
+    hash functions it can reach - builtins.hash, zlib/binascii crc32 and adler32, pandas' row hashes - keep only their three lowest
+    bits.  They remain deterministic functions of their argument (equal inputs, equal hashes), which is all a hash promises; code
+    that is right for every input cannot depend on two DIFFERENT inputs having different hashes, but with full-width hashes such a
+    dependence shows only on inputs no search will meet (2^-32 .. 2^-64 per pair).  Installed before batchie is imported, so that
+    `from zlib import crc32` binds the wrapper too; callers outside the tree (hypothesis, pandas, numpy) get the real functions."""
+    if _weak[0]:
+        return
+    _weak[0] = True
+    import binascii
+    import builtins
+    import zlib
+
+    src = os.path.realpath(SRC) + os.sep
+    orch = os.path.realpath(ORCH)
+
+    def from_tree(depth=2):
+        f = sys._getframe(depth)
+        fn = f.f_code.co_filename
+        return fn == orch or fn.startswith(src) or os.path.realpath(fn).startswith(src)
+
+    def wrap_int(orig):
+        def weak(*a, **k):
+            r = orig(*a, **k)
+            return (r & 7) if from_tree() else r
+
+        weak.__name__ = getattr(orig, "__name__", "weak")
+        weak.__wrapped__ = orig
+        return weak
+
+    builtins.hash = wrap_int(builtins.hash)
+    for m in (zlib, binascii):
+        for n in ("crc32", "adler32", "crc_hqx"):
+            if hasattr(m, n):
+                setattr(m, n, wrap_int(getattr(m, n)))
+    try:
+        import numpy as np
+        import pandas.core.util.hashing as ph
+        import pandas.util as pu
+    except Exception as e:  # pragma: no cover
+        raise HarnessError("cannot prepare weak pandas hashes: %r" % (e,))
+
+    def wrap_arr(orig):
+        def weak(*a, **k):
+            r = orig(*a, **k)
+            return (r & np.uint64(7)) if from_tree() else r
+
+        weak.__name__ = getattr(orig, "__name__", "weak")
+        weak.__wrapped__ = orig
+        return weak
+
+    for n in ("hash_pandas_object", "hash_array", "hash_tuples"):
+        if hasattr(ph, n):
+            w = wrap_arr(getattr(ph, n))
+            setattr(ph, n, w)
+            if hasattr(pu, n):
+                setattr(pu, n, w)
 
 
 _orch_counter = [0]
